@@ -24,19 +24,24 @@ RULE = ('cases = role {requestor, acceptor} x locally configured maximum x peer-
         'messages with data sets of sizes {< fragment, = fragment, 3 x fragment +- 1} in both '
         'directions; non-trivial = one of the two values is 0 or they differ; distinct = distinct '
         '(role, local, peer)'
-        '; plus data sizes for which command set + data set land just below/at/above one PDU')
+        '; plus data sizes for which command set + data set land just below/at/above one PDU; reconf: the entity\'s configured maximum is changed while the association is open')
 ASSUMPTIONS = ['the simulated recv(n) does not allocate n bytes (a 2^32-1 receive buffer is an '
                'OS-level concern outside the model)',
                'data sizes are capped at 6000 bytes: for huge limits all messages fit one fragment']
 
 
 def cases(tier, seed):
+    import random
+    rnd = random.Random('c10/%d' % seed)
     reps = 5 if tier == 'quick' else 60
     for r in range(reps):
         for role in ('requestor', 'acceptor'):
             for local in GRID:
                 for peer in GRID:
-                    yield dict(role=role, local=local, peer=peer, seed=seed * 1009 + r)
+                    # reconf: the application changes the entity's configured maximum while the
+                    # association is open - what was negotiated stays what it was
+                    yield dict(role=role, local=local, peer=peer, seed=seed * 1009 + r,
+                               reconf=rnd.choice([None, None, None, 0, 7, 65536, 2 ** 32 - 1]))
 
 
 def _sizes(limit):
@@ -123,6 +128,8 @@ def _requestor(case):
         def user():
             with ae.request_association({'aet': 'SRV', 'address': ADDR[0], 'port': ADDR[1]}) as a:
                 res['neg'] = a.max_pdu_length
+                if case.get('reconf') is not None:
+                    ae.max_pdu_length = case['reconf']
                 for i, n in enumerate(sizes):
                     msg = dimsemessages.CFindRQMessage()
                     msg.message_id = i + 1
@@ -187,10 +194,14 @@ def _acceptor(case):
         limit = pmax if (pmax and (not local or pmax < local)) else local
         sizes = _sizes(limit) + _near(limit, 'rsp', case['seed'])
         queries = []
+        state = {'round': 0}
 
         class Srv(applicationentity.AE):
             def on_receive_find(self, context, ds):
                 queries.append(len(ds.PatientName) + 8 if 'PatientName' in ds else 0)
+                if case.get('reconf') is not None and state['round'] == 1:
+                    # (in the last association of the case only: no later one is affected)
+                    self.max_pdu_length = case['reconf']
                 return iter([(_ds_of(n), 0xFF00) for n in sizes])
         ae = world.make_ae(Srv, 'SRV', 11112, [rc.IMPLICIT_LE], local)
         ae.timeout = 3600
@@ -201,6 +212,7 @@ def _acceptor(case):
         for rnd_no in (0, 1):
             del queries[:]
             out = {}
+            state['round'] = rnd_no
 
             def script(peer):
                 p = peer.associate()
